@@ -301,7 +301,7 @@ pub fn bnd_c18() {
     let nh = sk.iter().filter(|p| p.is_err()).count();
     let max_hidden = if thorough() { 4 } else { 3 };
     let mut rep = Report::new("bnd_c18", &format!("one skeleton document with {} hideable elements (p, li, a, span, b, h2, p in blockquote, tr, table; several carrying ids); every subset of at most {} of them \
-        hidden by `.h{{display:none;}}` (and, for single elements, by an inline style with document CSS enabled); widths 20/40/80; rich lines (fragment markers visible) and plain string with footnotes; plus 7 documents hidden through structural selectors (child/descendant combinators with nested candidates, nth-child, id, selector list, universal)", nh, max_hidden));
+        hidden by `.h{{display:none;}}` (and, for single elements, by an inline style with document CSS enabled); widths 20/40/80; rich lines (fragment markers visible) and plain string with footnotes; plus 7 documents hidden through structural selectors (child/descendant combinators with nested candidates, nth-child, id, selector list, universal); 11 pairs of competing display declarations (style attribute against sheet rules incl. !important, element+class / id against class selectors), the sheet as a style element and through add_css: the winner of the cascade decides", nh, max_hidden));
     let mut subsets: Vec<Vec<usize>> = vec![];
     for a in 0..nh { subsets.push(vec![a]); for b in a + 1..nh { subsets.push(vec![a, b]); if max_hidden >= 3 { for c in b + 1..nh { subsets.push(vec![a, b, c]); if max_hidden >= 4 { for d in c + 1..nh { subsets.push(vec![a, b, c, d]); } } } } } }
     for hs in &subsets { for inline_style in [false, true] {
@@ -378,6 +378,36 @@ pub fn bnd_c18() {
                     Ok((a, b)) => if a != b { rep.found(&input, &format!("expected the elements of class h to be {}: {:?} vs {:?}", if hides { "hidden" } else { "rendered" }, a, b)); },
                 }
             }
+        }
+    }
+    // "a *winning* display:none": display declarations competing through the cascade — inline style against sheet rules (inline wins unless the
+    // rule is important), more against less specific selectors, important against later normal ones
+    {
+        let keep = "<p>keep1</p><p>keep2</p>";
+        for (sheet, attr, hides) in [
+            (".h{display:block;}", "style=\"display:none\"", true), (".h{display:none;}", "style=\"display:block\"", false),
+            ("#i{display:block;} p.h{display:block;}", "style=\"display:none\"", true), (".h{display:block !important;}", "style=\"display:none\"", false),
+            (".h{display:none !important;}", "style=\"display:block\"", true), ("p.h{display:none;} .h{display:block;}", "", true), (".h{display:none;} p.h{display:block;}", "", false),
+            ("#i{display:none;} .h{display:block;}", "", true), ("p.h{display:block;} .h{display:none;}", "", false), (".h{display:none !important;} #i{display:block;}", "", true),
+            (".h{height:5px;}", "style=\"height:0;overflow:hidden\"", true)] {
+            let body = format!("<p>keep1</p><p class=\"h\" id=\"i\" {}>gone <b>gone2</b></p><p>keep2</p>", attr);
+            // the sheet as a style element of the document (same origin as the style attribute) and through add_css
+            for width in [20usize, 60] { for in_doc in [true, false] {
+                let doc = if in_doc { format!("<style>{}</style>{}", sheet, body) } else { body.clone() };
+                let input = format!("width={} css={} use_doc_css html={}", width, if in_doc { "" } else { sheet }, doc);
+                rep.case(&input);
+                let (h1, d1) = (doc.clone(), (if hides { keep.to_string() } else if attr.is_empty() { body.clone() } else { body.replace(&format!(" {}", attr), " ") }));
+                let r = panic::catch_unwind(move || {
+                    let cfg = if in_doc { config::rich() } else { config::rich().add_css(sheet).unwrap() };
+                    let a = cfg.use_doc_css().lines_from_read(h1.as_bytes(), width).map(|l| lines_dbg(&l)).map_err(|e| format!("{:?}", e));
+                    let b = config::rich().lines_from_read(d1.as_bytes(), width).map(|l| lines_dbg(&l)).map_err(|e| format!("{:?}", e));
+                    (a, b)
+                });
+                match r {
+                    Err(_) => rep.found(&input, "panic"),
+                    Ok((a, b)) => if a != b { rep.found(&input, &format!("expected the element of class h to be {} (the winning display declaration): {:?} vs {:?}", if hides { "hidden" } else { "rendered" }, a, b)); },
+                }
+            }}
         }
     }
     // the same rule given as a document style sheet (in the head, at the start and in the middle of the body), with document CSS enabled
@@ -1513,7 +1543,7 @@ fn greedy(words: &[String], w: usize) -> Vec<String> {
 pub fn bnd_c04() {
     let (npar, maxw) = if thorough() { (1200u32, 40usize) } else { (250u32, 30usize) };
     let mut rep = Report::new("bnd_c04", &format!("{} seeded paragraphs of 1..12 words (ASCII words of 1..9 letters, wide-character words, words with a combining mark, words with as many wide characters as combining marks), split arbitrarily across text nodes and \
-        em/strong/code/span elements, white-space runs of spaces/newlines/tabs (sometimes alone inside an inline element); widths 1..={}; undecorated plain rendering: the lines equal those of a reference greedy wrapper, \
+        em/strong/code/span elements, white-space runs of spaces/newlines/tabs (sometimes alone inside an inline element); widths 1..={}; undecorated plain rendering: the lines equal those of a reference greedy wrapper (also, rich decorator: 4 paragraphs in which a zero-width character is the whole content of an inline element, widths 2..=12), \
         an error is returned exactly when a wide character meets width 1; also under max_wrap_width m < width (effective width m), and inside a quote and a list item at widths 5..=16 (effective width w - 2)", npar, maxw));
     let mut r = Lcg(0x6a09e667f3bcc908 ^ seed());
     for _ in 0..npar {
@@ -1587,6 +1617,25 @@ pub fn bnd_c04() {
                         let got: Vec<String> = out.lines().map(|l| l.to_string()).collect();
                         if got != want { rep.found(&input, &format!("lines {:?}, greedy reference {:?}", got, want)); }
                     }
+                }
+            }
+        }
+    }
+    // zero-width characters (a combining mark, a zero-width space) that are the whole content of an inline element: with the rich decorator
+    // they are pieces with a tag of their own; the lines (pieces concatenated) are still the greedy filling of the words
+    for (words, html) in [(vec!["cafe\u{301}", "xy", "z"], "<p>cafe<em>\u{301}</em> xy z</p>"), (vec!["a\u{200b}b", "cd"], "<p>a<span class=q>\u{200b}</span>b cd</p>"),
+                          (vec!["ab", "e\u{301}\u{301}", "fg"], "<p>ab e<strong>\u{301}</strong><em>\u{301}</em> fg</p>"), (vec!["\u{5b57}\u{301}", "k"], "<p>\u{5b57}<em>\u{301}</em> k</p>")] {
+        let words: Vec<String> = words.iter().map(|s| s.to_string()).collect();
+        for w in 2..=12usize {
+            let input = format!("width={} rich html={}", w, html);
+            rep.case(&input);
+            match panic::catch_unwind(move || config::rich().lines_from_read(html.as_bytes(), w)) {
+                Err(_) => rep.found(&input, "panic"),
+                Ok(Err(e)) => rep.found(&input, &format!("error {:?} although every character fits", e)),
+                Ok(Ok(lines)) => {
+                    let got: Vec<String> = lines.iter().map(|l| l.tagged_strings().map(|ts| ts.s.as_str()).collect::<String>()).collect();
+                    let want = greedy(&words, w);
+                    if got != want { rep.found(&input, &format!("lines {:?}, greedy reference {:?}", got, want)); }
                 }
             }
         }
@@ -1677,19 +1726,22 @@ pub fn bnd_c12() {
             }
         }
     }
-    // one source line whose first word is cut at the right edge and whose other words fit on the second line: the first output line is tagged
+    // one source line whose first word is cut at the right edge and whose other words (plain, or in inline elements that start with or
+    // without white space) fit on the second line: the first output line is tagged
     // preformatted, the second preformatted-continuation (breaks at white space and words moved to the next line as a whole are kept out:
     // recorded finding D24)
     {
         use html2text::render::RichAnnotation;
         for w in 6..=14usize { for (open, close, ind) in [("<pre>", "</pre>", 0usize), ("<ul><li><pre>", "</pre></li></ul>", 2), ("<blockquote><pre>", "</pre></blockquote>", 2)] {
-            let doc = format!("{}{} c d{}", open, "a".repeat(w - ind + 2), close);
+          for tail in [" c d", "<em> c</em> d", "<em>c</em> d", " <b>c</b><i> d</i>", "<span> </span>c<em></em> d"] {
+            let doc = format!("{}{}{}{}", open, "a".repeat(w - ind + 2), tail, close);
             let input = format!("width={} html={}", w, doc);
             rep.case(&input);
             let h = doc.clone();
             let lines = match panic::catch_unwind(move || config::rich().lines_from_read(h.as_bytes(), w)) { Ok(Ok(l)) => l, Ok(Err(_)) => continue, Err(_) => { rep.found(&input, "panic"); continue; } };
             let flags: Vec<Vec<bool>> = lines.iter().map(|l| { let mut f: Vec<bool> = l.tagged_strings().filter(|ts| !ts.s.trim().is_empty()).flat_map(|ts| ts.tag.iter().filter_map(|a| if let RichAnnotation::Preformat(c) = a { Some(*c) } else { None }).collect::<Vec<bool>>()).collect(); f.dedup(); f }).filter(|f| !f.is_empty()).collect();
             if flags.len() < 2 || flags[0] != vec![false] || flags[1..].iter().any(|f| *f != vec![true]) { rep.found(&input, &format!("expected the first line tagged preformatted and the later ones continuation, flags per line {:?}", flags)); }
+          }
         }}
     }
     rep.finish();
